@@ -208,8 +208,12 @@ var c15LookupInvariant = map[string]string{
 
 // onlyFedBy: every call of f inside the module passes, as argument i, result 0 of a call of the named producer.
 func (c *Ctx) onlyFedBy(f *ssa.Function, i int, producerName string) bool {
+	return c.onlyFedByD(f, i, producerName, 0)
+}
+
+func (c *Ctx) onlyFedByD(f *ssa.Function, i int, producerName string, depth int) bool {
 	node := c.CG.Nodes[f]
-	if node == nil {
+	if node == nil || depth > 3 {
 		return false
 	}
 	n := 0
@@ -222,7 +226,16 @@ func (c *Ctx) onlyFedBy(f *ssa.Function, i int, producerName string) bool {
 		if i >= len(args) {
 			return false
 		}
-		pc, idx := producer(resolve(args[i], site), site)
+		av := resolve(args[i], site)
+		// handed through by an unexported helper: its own parameter, fed the same way by all of its callers
+		if prm, isP := av.(*ssa.Parameter); isP && prm.Parent() == e.Caller.Func && c.isStageHelper(e.Caller.Func) {
+			if !c.onlyFedByD(e.Caller.Func, paramIndex(prm), producerName, depth+1) {
+				return false
+			}
+			n++
+			continue
+		}
+		pc, idx := producer(av, site)
 		if pc == nil || idx != 0 || calleeName(pc) != producerName {
 			return false
 		}
